@@ -363,6 +363,8 @@ def build_hierarchy(levels, with_custom=False):
         opts = dict(lv['opts'])
         if with_custom and li == 0:
             opts['custom'] = {Probe: probe_converter('L0')}
+        if with_custom in ('overridden', 'emptied', 'emptied-tuple') and li == len(levels) - 1 and li > 0:
+            opts['custom'] = {'overridden': {Probe: probe_converter('L1')}, 'emptied': {}, 'emptied-tuple': ()}[with_custom]
         name = f"L{li}_{next(_serial)}"
         base = types.new_class(name, tuple(bases), opts, lambda d, ns=ns: d.update(ns))
     return base
@@ -406,7 +408,10 @@ def program_shape(levels):
 def run(ctx):
     def body(i, rng, ty, T):
         levels = gen_program(rng)
-        with_custom = rng.random() < 0.15
+        with_custom = rng.random() < 0.2
+        if with_custom and len(levels) > 1:
+            # the leaf class may override the handlers it inherits - also with an EMPTY set of handlers, which switches them off
+            with_custom = rng.choice((True, True, 'overridden', 'emptied', 'emptied-tuple'))
         if with_custom:
             levels[0]['fields'].append({'name': 'probe_f', 'ty': ('probe',), 'has_default': True, 'default': Probe(('dflt', '')), 'kw': True})
         built = observe(build_hierarchy, levels, with_custom)
@@ -494,6 +499,14 @@ def run(ctx):
         key = (lambda n: model.style_name(n, style)) if style else (lambda n: n)
         okey = (lambda n: model.style_name(n, out_style)) if out_style else (lambda n: n)
         mapping = {key(n): v for n, v in data.items()}
+        if with_custom in ('emptied', 'emptied-tuple'):
+            # the leaf class switched the inherited handlers off: the probe field has no converter any more, and says so
+            pc = observe(final.from_data, {**mapping, key('probe_f'): 'hello'})
+            ctx.count('custom_switched_off_checks')
+            if not (pc.kind == 'escape' and isinstance(pc.exc, TypeError)):
+                ctx.violation('options-inherited', 'main', i, {**wit0, 'option': 'custom', 'overridden_with': with_custom, 'outcome': pc.brief()},
+                              mech='custom-handlers-not-switched-off')
+            return
         out = observe(final.from_data, mapping)
         ctx.count('substituted_field_conversions')
         wit = {**wit0, 'final': short(final), 'binding': binding, 'data': short(mapping, 300), 'outcome': out.brief()}
@@ -565,8 +578,16 @@ def run(ctx):
         if with_custom:
             ctx.count('custom_inherited_checks')
             pc = observe(final.from_data, {**mapping, key('probe_f'): 'hello'})
-            if pc.kind != 'value' or getattr(pc.val, 'probe_f', None) != Probe(('L0', 'hello')):
-                ctx.violation('options-inherited', 'main', i, {**wit0, 'option': 'custom', 'outcome': pc.brief()}, mech='inherited-custom-handlers')
-                return
+            if with_custom in ('emptied', 'emptied-tuple'):
+                ctx.count('custom_switched_off_checks')
+                if not (pc.kind == 'escape' and isinstance(pc.exc, TypeError)):
+                    ctx.violation('options-inherited', 'main', i, {**wit0, 'option': 'custom', 'overridden_with': with_custom, 'outcome': pc.brief()},
+                                  mech='custom-handlers-not-switched-off')
+                    return
+            else:
+                lvl = 'L1' if with_custom == 'overridden' else 'L0'
+                if pc.kind != 'value' or getattr(pc.val, 'probe_f', None) != Probe((lvl, 'hello')):
+                    ctx.violation('options-inherited', 'main', i, {**wit0, 'option': 'custom', 'expected_level': lvl, 'outcome': pc.brief()}, mech='inherited-custom-handlers')
+                    return
 
     drive.for_each_case(ctx, 'main', ctx.budget, body, gen=lambda c, r: Ty('int'), seconds=40)
